@@ -23,12 +23,21 @@ func TestC16(t *testing.T) {
 	Prop(t, "C16", func(rt *rapid.T) {
 		var signed Tree
 		many := rapid.IntRange(0, 11).Draw(rt, "manywounds") == 0
+		// a slow healer in front of more wounded files than any queue holds, whose archive turns out
+		// to be unusable part-way (or whose run is cancelled)
+		healQueue := rapid.IntRange(0, 29).Draw(rt, "healqueue") == 0
+		if healQueue {
+			many = true
+		}
 		if many {
 			signed = Tree{}
 			n := rapid.IntRange(1100, 1600).Draw(rt, "nmany")
 			// more wounds than the channel holds, produced by the file pass, the directory pass or the
 			// symlink pass (the latter two run before the validator's worker exists)
 			mk := rapid.IntRange(0, 3).Draw(rt, "manykind")
+			if healQueue {
+				mk = 0
+			}
 			for i := 0; i < n; i++ {
 				switch {
 				case mk == 0 || (mk == 3 && i%3 == 0):
@@ -106,6 +115,13 @@ func TestC16(t *testing.T) {
 		}
 		differs := signed.Diff(damaged) != ""
 		cmode := rapid.SampledFrom([]string{"failfast", "failfast", "failfast", "woundsfile", "woundsfile-unwritable", "printer", "heal", "heal-missing-archive", "heal-corrupt-archive"}).Draw(rt, "consumer")
+		if many && rapid.Bool().Draw(rt, "manyheal") {
+			// more wounded files than any queue holds, handed to a healer whose archive may be unusable
+			cmode = rapid.SampledFrom([]string{"heal", "heal-missing-archive", "heal-corrupt-archive"}).Draw(rt, "manyhealmode")
+		}
+		if healQueue {
+			cmode = rapid.SampledFrom([]string{"heal-corrupt-archive", "heal-corrupt-archive", "heal"}).Draw(rt, "healqueuemode")
+		}
 		cancelAt := -1
 		if rapid.IntRange(0, 2).Draw(rt, "docancel") != 0 {
 			cancelAt = rapid.IntRange(0, 400).Draw(rt, "cancelstep")
@@ -188,10 +204,15 @@ func TestC16(t *testing.T) {
 		default:
 			vctx.HealPath = "archive," + zipPath
 		}
-		if (many || manyBlocks) && rapid.Bool().Draw(rt, "starve") {
+		if healQueue {
+			spec.Policy, spec.Starve = 3, "pwr.ArchiveHealer.Do"
+			Ev.Probe("slow_healer_behind_a_full_queue")
+		} else if (many || manyBlocks) && rapid.Bool().Draw(rt, "starve") {
 			// one party only runs when nobody else can: queues fill up to their capacity
 			spec.Policy = 3
-			spec.Starve = rapid.SampledFrom([]string{"pwr.ArchiveHealer.heal", "pwr.ArchiveHealer.Do", "pwr.ValidatorContext.validate", "pwr.ValidatorContext.Validate", "pwr.AggregateWounds", "pwr.ValidatingPool"}).Draw(rt, "starvewho")
+			// (task names are the function a goroutine first parks in: the heal worker is a literal in
+			// ArchiveHealer.Do, the consumer and the relays are literals in Validate / GetWriter)
+			spec.Starve = rapid.SampledFrom([]string{"pwr.ArchiveHealer.Do", "pwr.ArchiveHealer.Do", "pwr.ArchiveHealer.Do", "pwr.ValidatorContext.validate", "pwr.ValidatorContext.Validate", "pwr.AggregateWounds", "pwr.ValidatingPool"}).Draw(rt, "starvewho")
 		}
 		s := &Sched{Spec: spec, MaxSteps: 600000}
 		s.Setup = func() { ctx, cancel = context.WithCancel(context.Background()) }
